@@ -1,6 +1,10 @@
 import DswModel.Model.CapacityF
 import DswModel.Props.C17b
 import DswModel.Props.FloatSpec
+import DswModel.Lemmas.FloatErr
+import DswModel.Lemmas.PowerStopF
+import DswModel.Lemmas.PowerStopFStep
+import DswModel.Lemmas.PowerStopFCert
 /-!
 # C17 (continued) — what the stopping rule certifies IN DOUBLE PRECISION
 
@@ -40,7 +44,8 @@ theorem C17F_rowSum (a : Acc) (x : VecF) (v : Nat) (y : Dbl) (hx : x.Ok a.size) 
     applyRow a x.toRat v * (1 - (2 : Rat)⁻¹ ^ 51) - (2 : Rat)⁻¹ ^ 1070 ≤ y.toRat ∧
     y.toRat ≤ applyRow a x.toRat v * (1 + (2 : Rat)⁻¹ ^ 51) + (2 : Rat)⁻¹ ^ 1070 ∧
     IsB64 y.num y.den ∧ 0 ≤ y.num := by
-  sorry
+  have h := PowerStopF.rowSum_bound a x v y hx.2 (ha v hv) hy
+  exact ⟨h.1, h.2.1, h.2.2.1, h.2.2.2.1⟩
 
 /-- THE CERTIFICATE: if one more double-precision step `capStepF a x = (z, ev)` changes no entry by `tol` or more (the
 code's "settled" test, itself evaluated in double precision: `max(abs(z - x)) < tol`), then `x` is an approximate
@@ -54,7 +59,7 @@ theorem C17F_stop_certificate (a : Acc) (x z : VecF) (ev tol md : Dbl) (δ : Rat
     ∀ v, S v →
       ev.toRat * (1 - (tol.toRat + (2 : Rat)⁻¹ ^ 500) / δ) * (1 - (2 : Rat)⁻¹ ^ 50) * (x.toRat).getD v 0 ≤ applyRow a x.toRat v ∧
       applyRow a x.toRat v ≤ ev.toRat * (1 + (tol.toRat + (2 : Rat)⁻¹ ^ 500) / δ) * (1 + (2 : Rat)⁻¹ ^ 50) * (x.toRat).getD v 0 := by
-  sorry
+  exact PowerStopF.stop_certificate a x z ev tol md δ S hx.2 ha hstep hev htol hmd hset hδ hS
 
 /-- THE ACCURACY of the double-precision stopping rule: with the certificate above on a successor-closed `S`, the
 `x`-weighted number of `n`-step walks from every vertex of `S` lies between `(ev·(1 − ε₁)(1 − 2^-50))^n` and
@@ -72,12 +77,29 @@ theorem C17F_stop_accuracy (a : Acc) (x z : VecF) (ev tol md : Dbl) (δ : Rat) (
         ≤ weightedWalksQ a x.toRat n v ∧
       weightedWalksQ a x.toRat n v
         ≤ (ev.toRat * (1 + (tol.toRat + (2 : Rat)⁻¹ ^ 500) / δ) * (1 + (2 : Rat)⁻¹ ^ 50)) ^ n * (x.toRat).getD v 0 := by
-  sorry
+  have hθ : (0 : Rat) < (2 : Rat)⁻¹ ^ 500 := by positivity
+  have hδ0 : 0 < δ := lt_of_lt_of_le hθ hδ
+  have hev0 : 0 ≤ ev.toRat := le_trans (le_of_lt hθ) hev
+  have ht0 : 0 ≤ tol.toRat := FloatErr.val_nonneg htol.2
+  have hq0 : 0 ≤ (tol.toRat + (2 : Rat)⁻¹ ^ 500) / δ := div_nonneg (add_nonneg ht0 (le_of_lt hθ)) (le_of_lt hδ0)
+  have hq1 : (tol.toRat + (2 : Rat)⁻¹ ^ 500) / δ ≤ 1 := (div_le_one hδ0).2 hsmall
+  have hν : 0 ≤ ev.toRat * (1 - (tol.toRat + (2 : Rat)⁻¹ ^ 500) / δ) * (1 - (2 : Rat)⁻¹ ^ 50) :=
+    mul_nonneg (mul_nonneg hev0 (sub_nonneg.2 hq1)) (by norm_num)
+  have hμ : 0 ≤ ev.toRat * (1 + (tol.toRat + (2 : Rat)⁻¹ ^ 500) / δ) * (1 + (2 : Rat)⁻¹ ^ 50) :=
+    mul_nonneg (mul_nonneg hev0 (add_nonneg zero_le_one hq0)) (by norm_num)
+  refine C17_certificate_rat a x.toRat S _ _ hν hμ (fun v hv => ?_) hclosed
+    (C17F_stop_certificate a x z ev tol md δ S hx ha hstep hev htol hmd hset hδ hS)
+  have h1 : (x.toRat).getD v 0 = (x.getD v Dbl.zero).toRat := PowerStopF.map_val_getD x v
+  rw [h1]
+  exact le_trans (le_of_lt hδ0) (hS v hv).2
 
 /-- the step keeps the invariant: the new vector again holds non-negative binary64 values (so the hypotheses of the
 certificate are met at every iteration of a run that starts from such a vector). -/
 theorem C17F_step_ok (a : Acc) (x z : VecF) (ev : Dbl) (hx : x.Ok a.size) (ha : a.Closed)
     (hstep : capStepF a x = some (z, ev)) : z.Ok a.size ∧ IsB64 ev.num ev.den ∧ 0 ≤ ev.num := by
-  sorry
+  obtain ⟨h1, h2, h3, h4⟩ := PowerStopF.step_data a x z ev hx.2 ha hstep
+  refine ⟨⟨h1, fun v hv => ?_⟩, h2, h3⟩
+  obtain ⟨_, _, g1, g2, _⟩ := h4 v hv
+  exact ⟨g1, g2⟩
 
 end Dsw
